@@ -136,6 +136,16 @@ def handleRt (st : Option State) (args : List String) : Option State × String :
       | .err c => (none, "configErr " ++ c)
       | .panic c => (none, "panic " ++ c)
     | _, _, _, _, _ => (st, "bad-op")
+  | ["nowatch", si, dl, su, slots] =>
+    match parseBool si, parseBool dl, parseBool su, parseCfg slots with
+    | some si, some dl, some su, some sl =>
+      match configInit harnessWorld ⟨si, dl, su⟩ sl with
+      | .ok v =>
+        let (r, vs) := enableNoWatch harnessWorld ⟨si, dl, su⟩ v
+        (st, s!"ok {resStr r} verifies={vs.length}")
+      | .err c => (st, "configErr " ++ c)
+      | .panic c => (st, "panic " ++ c)
+    | _, _, _, _ => (st, "bad-op")
   | "peek" :: l =>
     match st, parseLabel l with
     | some s, some lab =>
